@@ -529,7 +529,7 @@ func units(tier string) []runner.Unit {
 			return ps
 		})
 	}
-	us = append(us, retiredUnits(tier)...)
+	us = append(us, RetiredUnits("C05", tier)...)
 	us = append(us, c06.PartyWithoutCredentialUnits("C05")...)
 	return us
 }
